@@ -1089,8 +1089,13 @@ fn build_prf(
     webauthn::AuthenticationExtensionsPrfInputs {
         eval: p.eval.as_ref().map(prf_vals),
         eval_by_credential: p.by_cred.as_ref().map(|m| {
+            // Two different spellings of one credential id are two keys of the caller's record but
+            // one key after decoding; which of them the client keeps depends on the iteration order
+            // of its randomly keyed HashMap, i.e. on nothing the scenario controls. The later
+            // spelling is left out so that one scenario is one execution (DESIGN §12).
+            let mut spelled: Vec<(Vec<u8>, String)> = Vec::new();
             m.iter()
-                .map(|(k, v)| {
+                .filter_map(|(k, v)| {
                     let (key, id) = match k {
                         KeyRef::Cred(r) => {
                             let id = resolve_id(r, creds, rp);
@@ -1110,8 +1115,14 @@ fn build_prf(
                             (key, Some(id))
                         }
                     };
+                    if let Some(id) = &id {
+                        if spelled.iter().any(|(i, k)| i == id && *k != key) {
+                            return None;
+                        }
+                        spelled.push((id.clone(), key.clone()));
+                    }
                     out.push((key.clone(), id, v.clone()));
-                    (key, prf_vals(v))
+                    Some((key, prf_vals(v)))
                 })
                 .collect()
         }),
